@@ -34,10 +34,12 @@ PROPS = {
         "trust": ["the 'at most 1 per channel under swap' clause and endpoint exactness in Lab/LCh/OkLab are float statements: enumerated, not proved"],
     },
     "C09": {
+        "cli": True,
         "rule": "oracle on a lattice of every 2nd level per channel (quick, 2^21 colours) or all 2^24 (thorough): strict monotonicity in each channel, text colour, to_gray; contrast on structured and random pairs; all cases distinct by construction",
         "trust": ["luminance is evaluated through libm pow; the 0.179 threshold comparison on floats is enumerated"],
     },
     "C10": {
+        "cli": True,
         "rule": "alpha boundary alphabet through every constructor; unary transformations on translucent colours; 7 formatters; compositing on random, same-colour, opaque-source and transparent-source pairs with alpha grid {0,1,1e-9,1-1e-9,k/255,random}; non-trivial = alpha != 1",
         "trust": ["that float rounding of the blended quotient never crosses a half is enumerated, not proved"],
     },
